@@ -29,6 +29,9 @@ fn wd_with(version: &str, extra: &str) -> String {
 interface ia {{ record r {{ a: u32 }} fa: func(x: r); {extra} }}
 interface ib {{ use ia.{{r}}; fb: func() -> r; }}
 interface ic {{ fc: func(); }}
+interface id {{ fd1: func(); fd2: func(); }}
+world w8 {{ import id; export id; }}
+world w9 {{ import up: interface {{ fd1: func(); fd2: func(); }} export down: interface {{ fd1: func(); fd2: func(); }} }}
 world w1 {{ import f: func(); export g: func(); }}
 world w2 {{ import ia; export ic; }}
 world w3 {{ import ib; export g: func(); }}
@@ -127,6 +130,19 @@ pub fn cases() -> Vec<Case> {
     add("w7", "conforming", "let c = new t:c7 { ... };\nexport c.g;\nexport c.k;\n", Conforms);
     add("w7", "conforming-subset-of-imports", "let c = new t:c1 { ... };\nlet d = new t:c7 { ... };\nexport c.g;\nexport d.k;\n", Conforms);
     add("w7", "missing-export", "let c = new t:c7 { ... };\nexport c.g;\n", Fails("MissingTargetExport"));
+    // pass-through worlds: the same interface imported and exported, the composition's import node
+    // passed on as the export (one item checked in both directions against the world)
+    let id_name = "\"t:wd/id@1.0.0\"";
+    for (variant, members, expect) in [
+        ("passthrough-full", "fd1: func(); fd2: func();", Conforms),
+        ("passthrough-narrower", "fd1: func();", Fails("TargetMismatch")),
+        ("passthrough-wider", "fd1: func(); fd2: func(); fd3: func();", Fails("TargetMismatch")),
+        ("passthrough-retyped", "fd1: func(); fd2: func(x: u32);", Fails("TargetMismatch")),
+    ] {
+        add("w8", variant, &format!("import x as {id_name}: interface {{ {members} }};\nexport x as {id_name};\n"), expect.clone());
+        add("w9", variant, &format!("import up: interface {{ {members} }};\nexport up as down;\n"), expect);
+    }
+    add("w8", "passthrough-by-path", "import x as \"t:wd/id@1.0.0\": t:wd/id@1.0.0;\nexport x as \"t:wd/id@1.0.0\";\n", Conforms);
     // other compatible version of the interfaces: components built against t:wd@1.1.0
     add("w2", "higher-compatible-version", "let c = new t:c2v11 { ... };\nexport c.ic;\n", Unspecified);
     add("w4", "higher-compatible-version-export", "let c = new t:c4v11 { ... };\nexport c.g;\nexport c.ia;\n", Unspecified);
